@@ -252,7 +252,17 @@ class CallSpec:
     The handler asserts the callee's precondition (engine.vc) and assumes its postcondition."""
 
     def __init__(self, handler):
-        self.handler = handler
+        self._h = handler
+
+    def handler(self, eng, st, args, kw, node, exits):
+        # mechanical count of what is ASSUMED about callees: every fact a call-site contract adds to the path condition, every obligation it raises
+        n0, v0 = len(st.pc), len(eng.vcs)
+        try:
+            return self._h(eng, st, args, kw, node, exits)
+        finally:
+            eng.assumed_facts = getattr(eng, "assumed_facts", 0) + max(0, len(st.pc) - n0)
+            eng.callsite_obligations = getattr(eng, "callsite_obligations", 0) + max(0, len(eng.vcs) - v0)
+            eng.callsite_uses = getattr(eng, "callsite_uses", 0) + 1
 
 
 # --------------------------------------------------------------------------------------
